@@ -256,11 +256,17 @@ def c04(repo, res):
         raise AnalysisError("FRAME: fewer than 2 rotation applications judged in getBH_level2 (pixel placement + field back-rotation expected)")
     # the observers handed to get_src_dict must be global points
     # ---- handedness: the only writes under `handedness == 'left'` negate component 0 of the last axis
-    hand = [n for n in ast.walk(node) if isinstance(n, ast.If) and "handedness" in ast.unparse(n.test)]
+    hand_names = {t.id for a in ast.walk(node) if isinstance(a, ast.Assign) and "handedness" in ast.unparse(a.value)
+                  for t in a.targets if isinstance(t, ast.Name)}
+    hand_left = {t.id: ("left" in ast.unparse(a.value)) for a in ast.walk(node) if isinstance(a, ast.Assign) and "handedness" in ast.unparse(a.value)
+                 for t in a.targets if isinstance(t, ast.Name)}
+    hand = [n for n in ast.walk(node) if isinstance(n, ast.If) and ("handedness" in ast.unparse(n.test) or
+                                                                    any(isinstance(x, ast.Name) and x.id in hand_names for x in ast.walk(n.test)))]
     if not hand:
         raise AnalysisError("anchor vanished: no `handedness` branch in getBH_level2")
     for h in hand:
-        ok = "left" in ast.unparse(h.test) and len(h.body) == 1 and not h.orelse
+        is_left = "left" in ast.unparse(h.test) or any(hand_left.get(x.id) for x in ast.walk(h.test) if isinstance(x, ast.Name))
+        ok = is_left and len(h.body) == 1 and not h.orelse
         st = h.body[0] if h.body else None
         if ok:
             ok = isinstance(st, ast.AugAssign) and isinstance(st.op, ast.Mult) and ast.unparse(st.value) in ("-1", "-1.0") \
